@@ -89,6 +89,28 @@ CHECKS = {
    note="quick: all tokens x 3 styles at default options + reduced tag/option combinations; thorough: full product; char, Option and "
         "!!binary-into-String targets and literal/folded styles are not yet in the table; finite float values delegated to Rust; " + TRUST,
    technique="TLA+ table transcription (Scalars.tla, Base64.tla) evaluated by TLC + TLC trace validation of every executed cell"),
+ "C09": dict(
+   category="model_checking",
+   text="ReaderInput.tla states what the character source must deliver for a text (UTF-8 widths), a read schedule, an ending and a "
+        "cap; MC_ReaderInput checks the ChunkedChars machine (lead byte, continuation bytes under short reads, cap, end of source) "
+        "against it for EVERY schedule of every small text; recorded reader-based calls under exhaustive/adversarial chunkings are "
+        "decided by the TLA+ trace validator: same value, or same error kind at the same line and column, as the in-memory entry "
+        "points; BOM ignored; the borrowing clause is checked on a table of scalar styles.",
+   design_ref="DESIGN.md section 4 C09",
+   note="bounded: texts <= 3/4 code points x all schedules in the model; 30 corpus documents x all compositions for <= 10/14 bytes, "
+        "sampled/adversarial beyond; the decoder's own buffering (encoding_rs_io) is trusted; " + TRUST,
+   technique="TLA+ model (ReaderInput.tla, MC_ReaderInput.tla) checked by TLC + TLC trace validation of recorded reader calls"),
+ "C10": dict(
+   category="fault_enumeration",
+   text="Same specification: ReaderInput!Expected says for every (text, bytes delivered, ending, cap) whether the source ends "
+        "cleanly, with an I/O error (fault, or EOF inside a code point) or with the size cap, and the machine is model-checked "
+        "against it; every byte position of every corpus document is used as fault position and as early EOF, caps around the "
+        "length, with from_reader, read and an error-swallowing target; every write call and byte offset of the writer is failed; "
+        "each record is decided by the TLA+ trace validator (must be an error; bytes pulled <= cap + allowance; written bytes a "
+        "prefix of the fault-free output).",
+   design_ref="DESIGN.md section 4 C10",
+   note="fault positions are exhaustive for the corpus documents (<= 90 bytes), two chunkings, four error kinds; " + TRUST,
+   technique="fault enumeration decided by TLC trace validation against ReaderInput.tla (model-checked with TLC)"),
 }
 
 NOT_YET = "check not built yet (work in progress); it will be claimed once its TLA+ model and conformance harness are registered"
